@@ -933,6 +933,39 @@ def gen_normalize(rng, n, lines, checks, hist, spec_failures):
 # ----------------------------------------------------------------------------- pmap (through vmap with an axis name)
 
 
+def _pmap_fn(m):
+  import jax
+  import jax.numpy as jnp
+
+  def f(c, mu, sv, b, w_):
+    s0 = m.RunningStatisticsState(count=c, mean=mu, summed_variance=sv, std=jnp.ones_like(mu))
+    o = m.update(s0, b, weights=w_, pmap_axis_name='i')
+    return o.count, o.mean, o.summed_variance
+  return lambda c, mu, sv, b, w_: jax.vmap(lambda b1, w1: f(c, mu, sv, b1, w1), axis_name='i')(b, w_)
+
+
+def pmap_spec(m, x, w, st):
+  """spec on the implementation: all devices agree, and agree with the update on the concatenation"""
+  import jax.numpy as jnp
+  D, nloc, F = x.shape
+  out = _pmap_fn(m)(st.count, st.mean, st.summed_variance, jnp.asarray(x), jnp.asarray(w))
+  cnt, mean, sv = [np.asarray(o) for o in out]
+  pc = dict(x=x.tolist(), w=w.tolist(), count0=float(st.count), mean0=np.asarray(st.mean).tolist(),
+            sv0=np.asarray(st.summed_variance).tolist())
+  fails = []
+  if not (np.all(cnt == cnt[0]) and np.all(mean == mean[0]) and np.all(sv == sv[0])):
+    fails.append(dict(key='C18:pmap_replicas', what='pmapped update: devices end in different states', pmap_case=pc))
+  flat = m.update(st, jnp.asarray(x.reshape(D * nloc, F)), weights=jnp.asarray(w.reshape(-1)))
+  s2 = float(np.sum(w[..., None] * x * x)) + float(np.max(np.abs(np.asarray(st.summed_variance)))) + 1e-300
+  if not (np.allclose(cnt[0], flat.count, rtol=1e-12) and
+          np.allclose(mean[0], flat.mean, rtol=1e-9, atol=1e-9 * float(np.max(np.abs(x)))) and
+          np.allclose(sv[0], flat.summed_variance, rtol=1e-9, atol=1e-9 * s2)):
+    fails.append(dict(key='C18:pmap_eq_flatten', pmap_case=pc,
+                      what=f'pmapped update (mean {mean[0].tolist()}) differs from the update on the concatenated '
+                           f'shards (mean {np.asarray(flat.mean).tolist()})'))
+  return fails
+
+
 def gen_pmap(rng, n, lines, checks, hist, disagreements, spec_failures):
   import jax
   import jax.numpy as jnp
@@ -950,23 +983,9 @@ def gen_pmap(rng, n, lines, checks, hist, disagreements, spec_failures):
     else:
       x0 = np.round(rng.normal(size=(5, F)), 3)
       st = m.update(m.init_state(jnp.zeros((F,))), jnp.asarray(x0))
-    def f(c, mu, sv, b, w_):
-      s0 = m.RunningStatisticsState(count=c, mean=mu, summed_variance=sv, std=jnp.ones_like(mu))
-      o = m.update(s0, b, weights=w_, pmap_axis_name='i')
-      return o.count, o.mean, o.summed_variance
-    vf = lambda c, mu, sv, b, w_: jax.vmap(lambda b1, w1: f(c, mu, sv, b1, w1), axis_name='i')(b, w_)
-    out = vf(st.count, st.mean, st.summed_variance, jnp.asarray(x), jnp.asarray(w))
-    cnt, mean, sv = [np.asarray(o) for o in out]
-    if not (np.all(cnt == cnt[0]) and np.all(mean == mean[0]) and np.all(sv == sv[0])):
-      spec_failures.append(dict(key='C18:pmap_replicas', what='pmapped update: devices end in different states',
-                                pmap_case=dict(x=x.tolist(), w=w.tolist())))
-    flat = m.update(st, jnp.asarray(x.reshape(D * nloc, F)), weights=jnp.asarray(w.reshape(-1)))
-    if not (np.allclose(cnt[0], flat.count, rtol=1e-12) and np.allclose(mean[0], flat.mean, rtol=1e-9, atol=1e-12)
-            and np.allclose(sv[0], flat.summed_variance, rtol=1e-9, atol=1e-9 * float(np.sum(w[..., None] * x * x)))):
-      spec_failures.append(dict(key='C18:pmap_eq_flatten',
-                                what='pmapped update differs from the update on the concatenated shards',
-                                pmap_case=dict(x=x.tolist(), w=w.tolist(), count0=float(st.count),
-                                               mean0=np.asarray(st.mean).tolist(), sv0=np.asarray(st.summed_variance).tolist())))
+    vf = _pmap_fn(m)
+    sf = pmap_spec(m, x, w, st)
+    spec_failures += sf
     key = (D, nloc, F)
     if key not in cache:
       cache[key] = jax.make_jaxpr(vf)(st.count, st.mean, st.summed_variance, jnp.asarray(x), jnp.asarray(w))
@@ -974,11 +993,7 @@ def gen_pmap(rng, n, lines, checks, hist, disagreements, spec_failures):
     c0, m0, v0 = Fraction(float(st.count)), [Fraction(float(v)) for v in np.asarray(st.mean)], \
         [Fraction(float(v)) for v in np.asarray(st.summed_variance)]
     args = [J._obj(c0), np.asarray(m0, dtype=object), np.asarray(v0, dtype=object), J.lift(dom, x), J.lift(dom, w)]
-    try:
-      eo = J.eval_jaxpr(cache[key], args, dom)
-    except J.Unsupported as e:
-      disagreements.append(dict(what=f'pmap jaxpr not evaluable: {e}'))
-      return
+    eo = J.eval_jaxpr(cache[key], args, dom)
     ec, em, ev = eo[0][0], eo[1][0], eo[2][0]
     exp = [v for j in range(F) for v in (ec, em[j], ev[j])]
     t = ['C18.pmap', 'R', '0', '1', str(F), str(D), str(nloc), tokF(c0)]
@@ -996,37 +1011,59 @@ def gen_pmap(rng, n, lines, checks, hist, disagreements, spec_failures):
 # ----------------------------------------------------------------------------- validate_shapes
 
 
-def gen_validate(rng, n, lines, checks, hist, disagreements):
+def gen_shape_case(rng):
+  feat = [[int(rng.integers(1, 4))], ([] if rng.random() < 0.3 else [int(rng.integers(1, 3))])]
+  if rng.random() < 0.3:
+    feat[0] = [2, int(rng.integers(1, 3))]
+  dims = [int(rng.integers(1, 4)) for _ in range(int(rng.integers(0, 3)))]
+  leaves = [dims + feat[0], dims + feat[1]]
+  wshape = list(dims) if rng.random() < 0.7 else None
+  mut = rng.choice(['none', 'none', 'w-extra', 'w-size', 'leaf-batch', 'leaf-feat', 'leaf-rank', 'w-one'])
+  if mut == 'w-extra' and wshape is not None: wshape = wshape + [1]
+  elif mut == 'w-size' and wshape: wshape = [wshape[0] + 1] + wshape[1:]
+  elif mut == 'w-one' and wshape: wshape = [1] * len(wshape)
+  elif mut == 'leaf-batch' and dims: leaves[1] = [dims[0] + 1] + leaves[1][1:]
+  elif mut == 'leaf-feat' and feat[1]: leaves[1] = dims + [feat[1][0] + 1]
+  elif mut == 'leaf-rank': leaves[1] = leaves[1] + [1]
+  return dict(weights=wshape, leaves=leaves, means=feat)
+
+
+def run_shape_case(m, sc):
   import jax.numpy as jnp
+  st = m.init_state({'a': jnp.zeros(sc['means'][0]), 'b': jnp.zeros(sc['means'][1])})
+  batch = {'a': jnp.ones(sc['leaves'][0]), 'b': jnp.ones(sc['leaves'][1])}
+  try:
+    m.update(st, batch, weights=None if sc['weights'] is None else jnp.ones(sc['weights']))
+    return 'ok'
+  except (ValueError, AssertionError, TypeError):
+    return 'err'
+
+
+def validate_spec(m, sc):
+  """documented contract (docstrings of update / _validate_batch_shapes), independent of the model: weights must
+  match the batch dimensions, every leaf must be batch_dims + reference shape"""
+  l0, m0 = sc['leaves'][0], sc['means'][0]
+  bd = l0[:len(l0) - len(m0)]
+  want = 'ok' if ((sc['weights'] is None or sc['weights'] == bd) and
+                  all(l == bd + f for l, f in zip(sc['leaves'], sc['means']))) else 'err'
+  got = run_shape_case(m, sc)
+  if got != want:
+    return dict(key='C18:validate_shapes', shape_case=sc,
+                what=f'update(validate_shapes=True) {"accepts" if got == "ok" else "rejects"} weights shape '
+                     f'{sc["weights"]}, leaf shapes {sc["leaves"]} for feature shapes {sc["means"]} (batch dims {bd})')
+  return None
+
+
+def gen_validate(rng, n, lines, checks, hist, disagreements):
   m = rs()
   for k in range(n):
-    feat = [[int(rng.integers(1, 4))], ([] if rng.random() < 0.3 else [int(rng.integers(1, 3))])]
-    if rng.random() < 0.3:
-      feat[0] = [2, int(rng.integers(1, 3))]
-    dims = [int(rng.integers(1, 4)) for _ in range(int(rng.integers(0, 3)))]
-    leaves = [dims + feat[0], dims + feat[1]]
-    wshape = list(dims) if rng.random() < 0.7 else None
-    mut = rng.choice(['none', 'none', 'w-extra', 'w-size', 'leaf-batch', 'leaf-feat', 'leaf-rank', 'w-one'])
-    if mut == 'w-extra' and wshape is not None: wshape = wshape + [1]
-    elif mut == 'w-size' and wshape: wshape = [wshape[0] + 1] + wshape[1:]
-    elif mut == 'w-one' and wshape: wshape = [1] * len(wshape)
-    elif mut == 'leaf-batch' and dims: leaves[1] = [dims[0] + 1] + leaves[1][1:]
-    elif mut == 'leaf-feat' and feat[1]: leaves[1] = dims + [feat[1][0] + 1]
-    elif mut == 'leaf-rank': leaves[1] = leaves[1] + [1]
-    st = m.init_state({'a': jnp.zeros(feat[0]), 'b': jnp.zeros(feat[1])})
-    batch = {'a': jnp.ones(leaves[0]), 'b': jnp.ones(leaves[1])}
-    try:
-      m.update(st, batch, weights=None if wshape is None else jnp.ones(wshape))
-      exp = 'ok'
-    except (ValueError, AssertionError):
-      exp = 'err'
-    except TypeError:
-      exp = 'err'        # broadcasting failure inside jnp before/after validation would also reject
-    sh = lambda s: [str(len(s))] + [str(d) for d in s]
-    t = ['C18.validate'] + (['1'] + sh(wshape) if wshape is not None else ['0'])
-    t += ['2'] + sh(leaves[0]) + sh(leaves[1]) + ['2'] + sh(feat[0]) + sh(feat[1])
+    sc = gen_shape_case(rng)
+    exp = run_shape_case(m, sc)
+    sh = lambda s_: [str(len(s_))] + [str(d) for d in s_]
+    t = ['C18.validate'] + (['1'] + sh(sc['weights']) if sc['weights'] is not None else ['0'])
+    t += ['2'] + sh(sc['leaves'][0]) + sh(sc['leaves'][1]) + ['2'] + sh(sc['means'][0]) + sh(sc['means'][1])
     lines.append(' '.join(t))
-    checks.append(('validate', (exp, f'weights={wshape} leaves={leaves} means={feat}')))
+    checks.append(('validate', (exp, f'weights={sc["weights"]} leaves={sc["leaves"]} means={sc["means"]}')))
     hist['validate:' + exp] += 1
 
 
@@ -1167,7 +1204,12 @@ def search(ctx, broken, corr):
   sf = []
   gen_normalize(rng, 40, [], [], Counter(), sf)
   gen_pmap(rng, 3, [], [], Counter(), [], sf)
-  found += sf[:1]
+  for _ in range(60):
+    f = validate_spec(rs(), gen_shape_case(rng))
+    if f:
+      sf.append(f)
+      break
+  found += _dedupe(sf)[:2]
   return found
 
 
@@ -1209,7 +1251,15 @@ def replay(ctx, rp):
           and (nc['max_abs'] is None or abs(float(nz['f'][0])) <= nc['max_abs']))
     return bool(ok), f'normalize={nz} roundtrip={rt} denormalize={dz}'
   if 'pmap_case' in rp:
-    sf = []
-    gen_pmap(np.random.default_rng(int(rp.get('seed', 0)) + 1), 3, [], [], Counter(), [], sf)
+    import jax.numpy as jnp
+    m = rs()
+    pc = rp['pmap_case']
+    mu = jnp.asarray(pc['mean0'])
+    st = m.RunningStatisticsState(count=jnp.asarray(pc['count0']), mean=mu, summed_variance=jnp.asarray(pc['sv0']),
+                                  std=jnp.ones_like(mu))
+    sf = pmap_spec(m, np.asarray(pc['x'], dtype=np.float64), np.asarray(pc['w'], dtype=np.float64), st)
     return (not sf), ('pmap clauses hold' if not sf else sf[0]['what'])
+  if 'shape_case' in rp:
+    f = validate_spec(rs(), rp['shape_case'])
+    return (f is None), ('shapes handled as documented' if f is None else f['what'])
   return True, 'nothing to replay'
